@@ -367,6 +367,20 @@ fn main() {
             scheds: schedules(&mut ctx.rng),
         });
     }
+    // a shared object without children at the write (empty array, struct of immediates) along 2-3 paths
+    for i in 0..(n / 5).max(18) {
+        let c = gen_shared_childless(&mut ctx.rng, i, true);
+        jobs.push(Job {
+            src: c.src,
+            class: format!("value:{}:childless", c.class.replace(':', "-")),
+            expected: Some(c.expected),
+            oracle: None,
+            model: None,
+            alias_model: None,
+            send_model: c.model.map(|m| m.0),
+            scheds: schedules(&mut ctx.rng),
+        });
+    }
     // every program runs in a child process (batches of 8): a defect that aborts the process is
     // attributed to the program that was running
     let batches: Vec<&[Job]> = jobs.chunks(8).collect();
